@@ -15,6 +15,14 @@ claims={
    text="negatesBadfilter is proved equal to the structural twin relation over every semantic field of NetworkRule; removeBadfilterRules is proved, with loop invariants over fold-style spec functions and for any slice length and any number of $badfilter rules, to return exactly the members of its input that are neither $badfilter rules nor twins of one, never more elements than it was given, without writing to its input.",
    note=TB+"; reflect.DeepEqual and slices.Equal enter as assumed contracts (structural equality); fold congruences and induction lemmas are themselves discharged obligations.",
    ref="5 C08", tech="contract-based deductive verification: loop invariants, fold congruence lemmas by induction, SMT portfolio"),
+ "C06":dict(level="proof",
+   text="NewMatchingResult and GetDNSBasicRule are proved, for any slice lengths and any order, to select a basic rule that is (a) a member of the effective rules (not disabled by a $badfilter twin, not a $badfilter rule, not a $dnsrewrite rule, not a cookie/replace/csp/stealth rule, and for blocking rules not suppressed by an effective $urlblock / $genericblock document exception of the referrer), (b) nil exactly when there is no such candidate, and (c) not outranked by any candidate, hence of maximal verdict class; the document-level flags are proved equal to order-free existential statements over the referrer rules, so the verdict class cannot depend on rule order or list split. GetBasicResult is proved equal to its three-way specification.",
+   note=TB+"; callee contracts used: removeBadfilterRules, removeDNSRewriteRules, IsHigherPriority (all discharged under C08/C07); Engine.MatchRequest / NetworkEngine.Match compose MatchAll with these and are not yet under contract.",
+   ref="5 C06", tech="contract-based deductive verification: loop invariants, induction lemmas, SMT portfolio"),
+ "C10":dict(level="proof",
+   text="Every $dnsrewrite loader and every registered record-type handler is proved to return either an error with a nil rewrite or a rewrite satisfying the published shape predicate (CNAME carries nothing else; a record type only with RCODE success; dynamic type of the value determined by the record type; PTR values end in a dot), for all input strings; each handler is checked against the contract of the handler function type under the key it is registered with in the package initialiser, and the dispatch in loadDNSRewriteNormal uses only that contract. All index, slice, nil and type-assertion obligations of these functions are discharged (no crash).",
+   note=TB+"; netip.ParseAddr/Is4, strconv.ParseUint, dns.Fqdn, strings.Split enter as assumed contracts; the key set of dnsRewriteRRHandlers is read from the package initialiser and the map is checked syntactically never to be written elsewhere.",
+   ref="5 C10", tech="contract-based deductive verification: WP over go/ssa, function-type contract with refinement obligations"),
  "C16":dict(level="proof",
    text="GetCosmeticOption is proved equal to the specification 'All minus the union of what each exception modifier disables' for all 2^64 option masks (hence all 2^9 subsets of the property) and for absent / non-exception basic rules; shrinking and monotonicity are lemmas over the specification.",
    note=TB, ref="5 C16", tech="contract-based deductive verification: WP over go/ssa, QF_BV obligations"),
